@@ -209,6 +209,14 @@ def _res(name, ok, line=0, note=''):
     return r
 
 
+def _shape(name, good, bad=False, line=0, note=''):
+    """good: the shape the argument needs is present; bad: a shape known to break the property is present; neither:
+    the code was restructured - undecided, never a violation."""
+    r = smt.shape(name, good, bad, line, note)
+    r.replay_fn = _witness
+    return r
+
+
 def static_export(repo):
     mod = extract.load(M)
     kv = mod.find('KVDef.export')
@@ -216,13 +224,15 @@ def static_export(repo):
     ls = mod.find('_write_longstring')
     limits = [st.value.value for st in ls.body if isinstance(st, ast.Assign) and ast.unparse(st.targets[0]) == 'LIMIT'
               and isinstance(st.value, ast.Constant)]
-    out.append(_res('longstring.limit_constant', len(limits) == 1 and isinstance(limits[0], int) and 2 <= limits[0] <= 1020,
-                    ls.lineno, f'LIMIT = {limits}; the game parser handles 1024 bytes per string'))
+    out.append(_shape('longstring.limit_constant', len(limits) == 1 and isinstance(limits[0], int) and 2 <= limits[0] <= 1020,
+                      len(limits) == 1 and isinstance(limits[0], int) and not (2 <= limits[0] <= 1020),
+                      ls.lineno, f'LIMIT = {limits}; the game parser handles 1024 bytes per string'))
     # every _write_longstring call passes the caller's syntax flag
     calls = [n for n in ast.walk(kv) if isinstance(n, ast.Call) and ast.unparse(n.func) == '_write_longstring']
     const_flag = [n.lineno for n in calls if len(n.args) < 2 or ast.unparse(n.args[1]) != 'custom_syntax']
-    out.append(_res('export.longstrings_use_the_callers_syntax', len(calls) >= 4 and not const_flag,
-                    const_flag[0] if const_flag else kv.lineno))
+    const_lits = [n.lineno for n in calls if len(n.args) >= 2 and isinstance(n.args[1], ast.Constant)]
+    out.append(_shape('export.longstrings_use_the_callers_syntax', len(calls) >= 4 and not const_flag, bool(const_lits),
+                      const_flag[0] if const_flag else kv.lineno))
     # quoted f-string pieces in KVDef.export: "{X}" must have X escaped by _fgd_escape
     bad = []
     for n in ast.walk(kv):
@@ -239,14 +249,16 @@ def static_export(repo):
     out.append(_res('export.quoted_texts_are_escaped', not bad, bad[0][0] if bad else kv.lineno, str(bad)))
     # a bare choices value must be a plain decimal number: the quoting decision is not `float(value)`
     src = ast.unparse(kv)
-    out.append(_res('export.choices_values_are_bare_only_when_plain_numbers', 'float(value)' not in src and 'isdecimal()' in src,
-                    kv.lineno))
+    out.append(_shape('export.choices_values_are_bare_only_when_plain_numbers', 'float(value)' not in src and 'isdecimal()' in src,
+                      'float(value)' in src, kv.lineno))
     # the name field of a spawnflags key is present whenever a default / description follows
     ok = any(isinstance(n, ast.If) and 'SPAWNFLAGS' in ast.unparse(n.test) and 'default' in ast.unparse(n.test)
              and 'self.desc' in ast.unparse(n.test) for n in ast.walk(kv))
-    out.append(_res('export.spawnflags_name_field_present_when_fields_follow', ok, kv.lineno))
+    plain = any(isinstance(n, ast.If) and ast.unparse(n.test) == 'self._type is not ValueTypes.SPAWNFLAGS' for n in ast.walk(kv))
+    out.append(_shape('export.spawnflags_name_field_present_when_fields_follow', ok, plain, kv.lineno))
     ent = ast.unparse(mod.find('EntityDef.export'))
-    out.append(_res('export.aliases_are_written_as_aliasof', "'aliasof('" in ent and 'self.is_alias' in ent))
+    out.append(_shape('export.aliases_are_written_as_aliasof', "'aliasof('" in ent and 'self.is_alias' in ent,
+                      'aliasof' not in ent and "file.write('base(')" in ent))
     return out
 
 
@@ -262,13 +274,14 @@ def static_engine_db(repo):
             fill = n
     early = [n.lineno for n in bb.body if fill is not None and n.lineno < fill.lineno and isinstance(n, ast.If)
              and 'overflow_block.ents' in ast.unparse(n.test)]
-    out.append(_res('enginedb.no_block_is_dropped_before_the_overflow_entities_are_placed', fill is not None and not early,
-                    early[0] if early else bb.lineno))
+    out.append(_shape('enginedb.no_block_is_dropped_before_the_overflow_entities_are_placed', fill is not None and not early,
+                      bool(early), early[0] if early else bb.lineno))
     es = mod.find('ent_serialise')
     src = ast.unparse(es)
     skips = 'if not tag_map:' in src
     counts_all = any(s in src for s in ('len(ent.keyvalues)', 'len(ent.inputs)', 'len(ent.outputs)'))
-    out.append(_res('enginedb.header_counts_match_the_attributes_written', not (skips and counts_all), es.lineno))
+    out.append(_shape('enginedb.header_counts_match_the_attributes_written', not (skips and counts_all), skips and counts_all,
+                      es.lineno))
     return out
 
 
